@@ -1,6 +1,5 @@
 import PeptVerif.Lemmas.ConcreteEnv
 import PeptVerif.Lemmas.ConcreteBridge
-import PeptVerif.Lemmas.ConcreteLabel
 import PeptVerif.Props.C12
 /-!
 # C12 over the concrete tables of /repo
@@ -21,7 +20,7 @@ mass model of C02 (`Model/Mass.lean`):
 * `labels_resolve`, `label_shift_concrete` — the eight labels of the property parse to (element ↦ label), both masses are in
   the generated element table and the label is heavier; the label-shift theorem at the concrete environment.
 
-* `mass_bridge_label` — **bridge lemma (label path)**: for a plain labelled annotation (static rules written out, nothing
+* `Props/C12LabelBridge.lean: mass_bridge_label` (separate module: it rests on C04's `Lemmas/FragmentLabel.lean`) — **bridge lemma (label path)**: for a plain labelled annotation (static rules written out, nothing
   labile / unknown-position / interval / adduct — the working copies of `fragment` and the pieces of `condense_to_mass_mods`),
   one label or a pair of labels of the property, known residues, modifications that resolve, any charge, both mass modes, the
   composition path of the concrete model (`Mass.mass` → `CompCalc.compMass`, through C04's closed form
@@ -99,18 +98,6 @@ theorem label_shift_concrete (env : Pept.Env) (a c : Annotation) (ion : Key) (mo
   refine ⟨x, y, hx, hy, ?_⟩
   rw [hxy, C12.label_shift_single]
   rfl
-
-/-- **bridge lemma (label path)**, precursor ion, the property's labels (single or pair), plain annotation -/
-theorem mass_bridge_label (env : Pept.Env) (mono : Bool) (dl : Mod → Option ℚ) (cp : Mod → Chem.Comp)
-    (b : Annotation) (L : List Mod) (ch : Int) (hL : L ∈ labelLists) (hpl : Fragment.PlainL b L)
-    (hseq : CompCalc.KnownResidues b.seq)
-    (hmods : Fragment.ModsResolve env (Fragment.knownOf mono) dl cp) (hsm : ∀ m, dl m = none → SmallKeys (cp m)) :
-    ∃ X, Mass.mass env b { charge := some ch, mono := mono } = .ok X ∧
-      AbsMass.massLabel (envFor env Mass.ionP mono ch 0 0) b = .ok X :=
-  mass_bridge_label_precursor env mono dl cp b L ch hL hpl hseq hmods hsm
-
-/-- non-vacuity: `<13C><15N>PEP[1]` is a plain labelled annotation with a label pair of the property -/
-example : [(⟨.str ['1', '3', 'C'], 1⟩ : Mod), ⟨.str ['1', '5', 'N'], 1⟩] ∈ labelLists := by decide
 
 end C12Concrete
 end Pept
